@@ -86,6 +86,12 @@ FORCED = [
     [("#", ["gap"]), ("INBOX", ["UID FETCH 2:6 (FLAGS BODY.PEEK[HEADER.FIELDS (X-CID)] BODY.PEEK[])"]), ("INBOX", ["UID EXPUNGE 3"])],
     [("#", ["gap"]), ("INBOX", ["UID COPY 2:6 other"]), ("INBOX", ["UID EXPUNGE 5", "NOOP"]), ("INBOX", ["UID SEARCH TEXT body"])],
     [("#", ["gap"]), ("INBOX", ["UID STORE 2:6 +FLAGS (kwx)", "NOOP"]), ("INBOX", ["UID EXPUNGE 3", "UID EXPUNGE 5"]), ("INBOX", ["UID FETCH 4:6 (FLAGS BODY.PEEK[HEADER.FIELDS (X-CID)])"])],
+    # the server has just been started again: no mailbox is active yet.  Two sessions name the same inactive mailbox (one
+    # activates it, the other waits for that) while a third renames / creates / deletes elsewhere in the tree
+    [("#", ["restart"]), (None, ["RENAME other other2"]), (None, ["STATUS third (MESSAGES UIDNEXT)"]), (None, ["STATUS third (MESSAGES UIDNEXT)"])],
+    [("#", ["restart"]), (None, ["RENAME other other2", "NOOP"]), (None, ["EXAMINE third"]), (None, ["APPEND third"]), (None, ["STATUS third (MESSAGES)"])],
+    [("#", ["restart"]), (None, ["CREATE other3", "RENAME other3 other4"]), (None, ["STATUS third (MESSAGES)", "STATUS other (MESSAGES)"]), (None, ["SELECT third", "UID FETCH 1:* (FLAGS BODY.PEEK[HEADER.FIELDS (X-CID)])"])],
+    [("#", ["restart"]), (None, ["RENAME third third2"]), (None, ["STATUS other (MESSAGES)"]), (None, ["EXAMINE other"]), (None, ["STATUS INBOX (MESSAGES)"])],
 ]
 
 
@@ -102,10 +108,12 @@ def gen_set(rnd):
     return out
 
 
-async def setup_state(rig, nodeleted=False, gap=False):
+async def setup_state(rig, nodeleted=False, gap=False, restart=False):
     cids = CidFactory("q")
     s = rig.session("Z")
     await s.cmd("CREATE other")
+    if restart:
+        await s.cmd("CREATE third")
     table = {}
     if gap:
         # variant: a message that came first is gone again, so the MH message numbers (and the UIDs: 2..6) of what
@@ -123,7 +131,14 @@ async def setup_state(rig, nodeleted=False, gap=False):
         await s.cmd("SELECT inbox")
         await s.cmd("UID EXPUNGE 1")
         await s.cmd("UNSELECT")
+    if restart:
+        for i in range(2):
+            cid, m = cids.make()
+            await s.append("third", m, flags=[["\\Seen"], []][i])
+            table[("third", i + 1)] = cid
     await s.cmd("LOGOUT")
+    if restart:
+        await rig.restart()
     return cids, table
 
 
@@ -288,7 +303,7 @@ async def one_run(loop, ctx, cmdset, mode, order=None):
     info = {"watchdog": 0, "closed": []}
     options = ctx.get("options") or []
     try:
-        cids, table = await setup_state(rig, nodeleted="nodeleted" in options, gap="gap" in options)
+        cids, table = await setup_state(rig, nodeleted="nodeleted" in options, gap="gap" in options, restart="restart" in options)
         rig.sessions_by_idx = {}
         rig.bye_sessions = set()
         for idx, (where, cmds) in enumerate(cmdset):
